@@ -11,7 +11,8 @@ EXPLANATION = (
     "source; R19.2 re-base after reallocation - the arena reallocators return the address shift; at every call site the shift flows into "
     "the re-basing code (list.move(delta), setMem(.., mem + delta)), or the discard is justified structurally: the caller is the arena's "
     "own class, rebuilds the contents afterwards (operator=), clears every dependent container in the same function (clear()), or keeps "
-    "offsets instead of pointers (NameSet). The abstract-data-type behaviour itself - key stability, dense numbering, permutation "
+    "offsets instead of pointers (NameSet); R19.3 removal by permutation in LPRowSetBase / LPColSetBase moves the parallel arrays for all old indices (the loop "
+    "bound is the count before the removal). The abstract-data-type behaviour itself - key stability, dense numbering, permutation "
     "results, hash-table deletion, vector arithmetic, sorting - is NOT decided: it quantifies over operation sequences and run-time "
     "contents; the two seeded changes for C19 (hash-table slot marking, insertion sort bound) are of that kind and are not caught.")
 
@@ -123,3 +124,38 @@ def run(fb, rep, tier):
                       'the address shift returned by %s is discarded in %s, which keeps interior pointers into that arena: after a reallocation they dangle' % (render(c)[:40], f.short))
     if sites < 8:
         raise AnalysisBroken('only %d call sites of arena reallocators found' % sites)
+
+
+    # ------------------------------------------------------------------ R19.3
+    # removal by permutation in the sets that keep parallel arrays next to the vectors (LPRowSetBase: sides, objective, exponents;
+    # LPColSetBase: bounds, objective, exponents): the loop that moves the array entries along perm[] must run over the element count
+    # BEFORE the vectors were removed - survivors come from old indices up to that count
+    rep.rule('R19.3', 'parallel arrays are moved along the permutation for all old indices: the loop bound is num() taken before the base-class removal', floor=4)
+    k3 = 0
+    for cls in ('soplex::LPRowSetBase<double>', 'soplex::LPColSetBase<double>'):
+        for f in fb.methods_of(cls):
+            if f.short != 'remove' or not f.nodes:
+                continue
+            base = [n for n in f.nodes if n.k == 'CXXMemberCallExpr' and n.short == 'remove' and 'SVSetBase' in (n.n or '')]
+            loops = [n for n in f.nodes if n.k == 'ForStmt' and n.kid('body') is not None and any(x.k in ('BinaryOperator', 'CXXOperatorCallExpr') and x.o == '=' and 'perm[' in render(x)[:40] for x in n.kid('body').walk())]
+            if not base or not loops:
+                continue
+            k3 += 1
+            lp = loops[0]
+            c = strip(lp.kid('cond'))
+            bound = strip(c.kids[1]) if c is not None and c.k == 'BinaryOperator' and c.o in ('<', '!=') else None
+            key = '%s::remove(%s)' % (cls.replace('soplex::', '').replace('<double>', ''), ','.join(t for _, t in f.params))
+            wh = '%s:%d' % (f.file, lp.l)
+            ok = False
+            why = 'loop bound not understood'
+            if bound is not None and bound.k == 'DeclRefExpr' and bound.dk == 'local':
+                defs = [n for n in f.nodes if (n.k == 'VarDecl' and n.u == bound.u and n.c and 'num()' in render(n.kids[0])) or (n.k == 'BinaryOperator' and n.o == '=' and render(n.kids[0]) == bound.n and 'num()' in render(n.kids[1]))]
+                if defs:
+                    ok = all(d.i < base[0].i and d.l <= base[0].l for d in defs)
+                    why = '%s = num() is evaluated after %s' % (bound.n, render(base[0])[:40])
+            elif bound is not None and 'num()' in render(bound):
+                ok = False
+                why = 'the bound num() is evaluated after the removal'
+            rep.check(ok, 'R19.3', key, wh, 'the bound is the count before the removal', '%s: survivors with an old index at or above the new count (those moved into the holes) keep their vector but not their sides / bounds / objective / exponent' % why)
+    if k3 < 4:
+        raise AnalysisBroken('R19.3: only %d permutation removals with parallel arrays found' % k3)
